@@ -200,6 +200,66 @@ pub fn run(ctx: &Ctx) {
         complete &= res.complete;
         spaces.push(json!({"items": n, "max_list_length": max_len, "lists": lists.len(), "pairs": total, "pairs_done": res.processed}));
     }
+    // long lists (6..=12 items): a structured family, enumerated completely: first list ascending
+    // with a tag pattern; second list over the same items (or one removed / two added) ascending,
+    // descending or rotated, with a tag pattern. Patterns: all mandatory, all optional, exactly one
+    // optional at position i, exactly one mandatory at position i
+    let patterns = |n: usize| -> Vec<Vec<bool>> {
+        let mut v = vec![vec![true; n], vec![false; n]];
+        for i in 0..n {
+            let mut a = vec![true; n];
+            a[i] = false;
+            v.push(a);
+            let mut b = vec![false; n];
+            b[i] = true;
+            v.push(b);
+        }
+        v
+    };
+    let mut long_pairs: Vec<(Tagged, Tagged)> = Vec::new();
+    for n in 6..=12usize {
+        let base: Vec<u8> = (0..n as u8).collect();
+        let firsts: Vec<Tagged> = patterns(n).into_iter().map(|p| p.into_iter().zip(base.iter().cloned()).collect()).collect();
+        let mut item_sets: Vec<Vec<u8>> = vec![base.clone(), base[..n - 1].to_vec()];
+        let mut plus = base.clone();
+        plus.push(n as u8);
+        plus.push(n as u8 + 1);
+        item_sets.push(plus);
+        let mut seconds: Vec<Tagged> = Vec::new();
+        for items in item_sets {
+            let mut orders: Vec<Vec<u8>> = vec![items.clone(), items.iter().rev().cloned().collect()];
+            for k in 1..items.len() {
+                let mut r = items.clone();
+                r.rotate_left(k);
+                orders.push(r);
+            }
+            for o in orders {
+                for p in patterns(o.len()) {
+                    seconds.push(p.into_iter().zip(o.iter().cloned()).collect());
+                }
+            }
+        }
+        for a in &firsts {
+            for b in &seconds {
+                long_pairs.push((a.clone(), b.clone()));
+            }
+        }
+    }
+    let res = par_for(
+        long_pairs.len() as u64,
+        ctx.threads,
+        256,
+        Some(ctx.deadline),
+        |_| 0u64,
+        |acc, i| {
+            let (a, b) = &long_pairs[i as usize];
+            ctx.report_all(check_pair(a, b, (1 << 50) | i));
+            *acc += 1;
+        },
+    );
+    evaluations += res.processed * 2;
+    complete &= res.complete;
+    spaces.push(json!({"family": "long lists, 6..=12 items, tag patterns x orders (ascending / descending / every rotation) x item sets (same / one removed / two added)", "pairs": long_pairs.len(), "pairs_done": res.processed}));
     ctx.set("evaluations", json!(evaluations));
     ctx.set("distinct_nontrivial", json!(nontrivial));
     ctx.set(
